@@ -202,7 +202,7 @@ var (
 
 // normalise replaces numbers, quoted names and paths by placeholders.
 func normalise(s string) string {
-	for _, m := range []string{"/w/my proj", "/sim/m", "/a/b/c/d", "/m/", "/sim/x", "/opt/tsh/bin"} {
+	for _, m := range []string{"/w/my proj", "/sim/m", "/a/b/c/d", "/m/", "/sim/x", "/opt/tsh/bin", "/home/u/.dotfiles/p", "/w/proj-1.2/src"} {
 		s = strings.ReplaceAll(s, m, "/M")
 	}
 	s = strings.ReplaceAll(s, "a b/", "ab/")
